@@ -15,9 +15,9 @@ SPEC_TR = os.path.join(_PRIV, "FuelVM_Trace.tla")
 SPEC_MC = os.path.join(_PRIV, "VmWide_MC.tla")
 BIN = "vh_vmwide"
 
-PROPERTIES_WIP = ["C22"]
+PROPERTIES = ["C22"]
 
-MANIFEST_WIP = {
+MANIFEST = {
     "C22": dict(category="model_checking",
                 technique="TLA+ specification of the 14 wide-integer instructions with exact naturals (VmWide.tla) used as the oracle of the "
                           "FuelVM trace specification: recorded single-instruction executions of the real interpreter are accepted or rejected "
@@ -174,7 +174,7 @@ def _leg_m(chk, pid, thorough):
 
 
 def run(pid, tier):
-    level = (globals().get("MANIFEST") or MANIFEST_WIP)[pid]["category"]
+    level = MANIFEST[pid]["category"]
 
     def body(chk):
         thorough = tier == "thorough"
